@@ -486,9 +486,9 @@ var Engine = &core.Engine{
 	},
 	Cases: func(tier string) int {
 		if tier == "thorough" {
-			return 20 * 300
+			return 20 * 600
 		}
-		return 20 * 10
+		return 20 * 60
 	},
 	Batch:         func(string) int { return 10 },
 	Run:           run,
